@@ -5,7 +5,7 @@ CFG = P(
         rule="complete enumeration of (relation, operand pair) over six boundary sets and of the 10x12 (expected type, behaviour) matrix; every case is distinct and non-trivial (it decides throw/no-throw)",
         bounds={"quick": "finite space, enumerated completely", "thorough": "finite space, enumerated completely"},
         explanation="E-ENUM over the real macros/templates; oracle = the C++ relation itself and std::is_base_of",
-        assumptions=["operands are int, int64, uint64, std::string, double (no NaN), bool"],
+        assumptions=["operands are int, int64, uint64, std::string, double (including NaN), bool"],
         engine="E-ENUM",
         technique="exhaustive enumeration of the finite (relation, operands) and (expected type, behaviour) spaces on the real helpers",
         level_text="Every relation macro x every ordered operand pair of six boundary sets and the full 10x12 matrix of expect_raises<E> x callee behaviour are executed on the real helpers; the space is finite and enumerated completely, so within it the verdict is a coverage statement, not a sample.",
